@@ -110,6 +110,7 @@ def run_check(prop, tier=None, seed=None, replay=None):
     reasons = {}
     inc_samples = []
     nontrivial = set()
+    nontrivial_cases = set()
     classes = {}
     probes = {}
     compared = 0
@@ -133,6 +134,8 @@ def run_check(prop, tier=None, seed=None, replay=None):
                 )
         for k in r.get("nontrivial", []) or []:
             nontrivial.add(k)
+        if r.get("nontrivial"):
+            nontrivial_cases.add(hashlib.sha256(json.dumps({k: v for k, v in case.items() if k != "id"}, sort_keys=True, default=jsonable).encode()).hexdigest())
         for c in r.get("classes", []) or []:
             classes[c] = classes.get(c, 0) + 1
         for k, v in (r.get("probes") or {}).items():
@@ -192,8 +195,10 @@ def run_check(prop, tier=None, seed=None, replay=None):
                 samples.append({"case": case, "observed": r.get("sample"), "status": status_of(r)})
     cov = {
         "evaluations": int(sum(counts.values()) - counts["skipped"]),
-        "distinct_nontrivial": int(len(nontrivial)),
-        "rule": getattr(mod, "RULE", ""),
+        "distinct_nontrivial": int(len(nontrivial_cases)),
+        "distinct_nontrivial_cells": int(len(nontrivial)),
+        "rule": getattr(mod, "RULE", "") + " [counting: distinct_nontrivial = generated cases, deduplicated by a hash of their content, in which at least one "
+        "non-trivial comparison in the above sense was made; distinct_nontrivial_cells = the distinct cells named under 'Distinct' that those comparisons fell into]",
         "samples": samples,
         "cases_generated": len(cases),
         "verdicts": counts,
